@@ -23,6 +23,12 @@ func main() {
 	switch cmd {
 	case "check":
 		os.Exit(runCheck(*repo, *prop, *tier))
+	case "replay":
+		if len(fs.Args()) != 1 {
+			fmt.Fprintln(os.Stderr, "usage: gvc replay <replay file>")
+			os.Exit(2)
+		}
+		os.Exit(runReplay(*repo, fs.Args()[0]))
 	case "func":
 		os.Exit(runFunc(*repo, fs.Args()))
 	case "frame":
